@@ -40,6 +40,22 @@ Proof.
   - inversion H; subst. rewrite !cnt_app. lia.
   - rewrite !cnt_app. specialize (IH i a a' x H). lia.
 Qed.
+Lemma cnt_flat_ge : forall {A} (f : A -> list task) l i a x, nth_error l i = Some a -> cnt (f a) x <= cnt (flat_map f l) x.
+Proof.
+  intros A f l. induction l as [|y l IH]; intros i a x H; [destruct i; discriminate|].
+  destruct i; cbn [flat_map nth_error] in *; rewrite cnt_app.
+  - inversion H; subst. lia.
+  - specialize (IH i a x H). lia.
+Qed.
+Lemma cnt_flat_ge2 : forall {A} (f : A -> list task) l i j a b x, i <> j -> nth_error l i = Some a -> nth_error l j = Some b ->
+  cnt (f a) x + cnt (f b) x <= cnt (flat_map f l) x.
+Proof.
+  intros A f l. induction l as [|y l IH]; intros i j a b x N Hi Hj; [destruct i; discriminate|].
+  destruct i, j; cbn [flat_map nth_error] in *; rewrite cnt_app; try congruence.
+  - inversion Hi; subst. pose proof (cnt_flat_ge f l j b x Hj). lia.
+  - inversion Hj; subst. pose proof (cnt_flat_ge f l i a x Hi). lia.
+  - assert (i <> j) by congruence. specialize (IH i j a b x H Hi Hj). lia.
+Qed.
 Lemma flat_map_snoc : forall {A} (f : A -> list task) l a, flat_map f (l ++ [a]) = flat_map f l ++ f a.
 Proof. intros. rewrite flat_map_app. cbn. rewrite app_nil_r. reflexivity. Qed.
 
@@ -80,6 +96,24 @@ Definition plist (s : st) : list task := flat_map heldp (sp s) ++ mpend s ++ fla
 Definition future (s : st) : list task := flat_map futp (sp s).
 Definition runl (s : st) : list task := flat_map wrunp (wk s) ++ prun (pr s).
 
+Definition wrmp (w : wpc) : list task := match w with W2 t => [t] | _ => [] end.
+Definition prm (p : ppc) : list task := match p with P4 r => [r] | _ => [] end.
+(* finished, not yet removed from _running *)
+Definition rml (s : st) : list task := flat_map wrmp (wk s) ++ prm (pr s).
+
+Lemma cnt_remove1 : forall t l x, cnt (remove1 t l) x + (if Nat.eq_dec t x then (if cnt l t =? 0 then 0 else 1) else 0) = cnt l x.
+Proof.
+  intros t l x. induction l as [|y l IH]; cbn [remove1].
+  - rewrite !cnt_nil. destruct (Nat.eq_dec t x); cbn; lia.
+  - destruct (Nat.eqb t y) eqn:E.
+    + apply Nat.eqb_eq in E. subst y. rewrite !cnt_cons. destruct (Nat.eq_dec t x); [subst|].
+      * destruct (Nat.eq_dec x x); [|congruence]. cbn. lia.
+      * lia.
+    + apply Nat.eqb_neq in E. rewrite !cnt_cons. destruct (Nat.eq_dec t x); [subst|].
+      * destruct (Nat.eq_dec y x); [congruence|]. destruct (Nat.eq_dec x y); [congruence|]. cbn [plus] in *. exact IH.
+      * lia.
+Qed.
+
 Definition locked_sp (p : spc) : bool := match p with S0 _ => false | _ => true end.
 Definition locked_sh (p : tpc) : bool := match p with T2 | T3 => true | _ => false end.
 Definition pbusy (p : ppc) (r : task) : Prop := p = P2 r \/ p = P3 r \/ p = P4 r \/ p = P7 r.
@@ -98,12 +132,18 @@ Record Inv (c : pcfg) (s : st) : Prop := {
   i_pready : pactive (pr s) -> ready s = true;
   i_stale : pr s = P0 \/ pr s = P1 -> ready s = true -> fresh s = false -> mailbox s = None;
   i_pmail : forall r, pbusy (pr s) r -> mailbox s = Some r \/ fresh s = true;
+  i_lock_conv_sp : forall i, lock s = Some (OSp i) -> exists p, nth_error (sp s) i = Some p /\ locked_sp p = true;
+  i_lock_conv_sh : forall j, lock s = Some (OSh j) -> exists p, nth_error (sh s) j = Some p /\ locked_sh p = true;
+  i_s4m : forall i t r ts, nth_error (sp s) i = Some (S4 t r ts) -> mto c = true;
+  i_rn_cnt : forall y, cnt (running s) y = cnt (plist s) y + cnt (runl s) y + cnt (rml s) y;
+  i_shut_ready : shut s = true -> pr s = P0 -> ready s = true \/ exists j p, nth_error (sh s) j = Some p /\ locked_sh p = true;
   i_shut_sp : forall i p, nth_error (sp s) i = Some p -> locked_sp p = true -> shut s = false;
   i_shut_sh : forall j p, nth_error (sh s) j = Some p -> p <> T0 -> shut s = true;
   i_exit : pr s = PExit -> shut s = true;
   i_none : ready s = true -> mailbox s = None -> shut s = true;
   i_s3 : forall i t ts, nth_error (sp s) i = Some (S3a t ts) \/ nth_error (sp s) i = Some (S3b t ts) -> ready s = false /\ pr s = P0 /\ fresh s = false;
   i_s3b : forall i t ts, nth_error (sp s) i = Some (S3b t ts) -> mailbox s = Some t;
+  i_t3 : forall j, nth_error (sh s) j = Some T3 -> mailbox s = None /\ fresh s = false;
   i_s4 : forall i t r ts, nth_error (sp s) i = Some (S4 t r ts) -> ready s = true /\ mailbox s = Some r /\ pr s <> PNone;
   i_s3c : forall i ts, nth_error (sp s) i = Some (S3c ts) -> ready s = true /\ pr s <> PNone;
   i_noprim : forall i p, nth_error (sp s) i = Some p -> pr s = PNone -> (forall t ts, p <> S3a t ts) /\ (forall t ts, p <> S3b t ts);
@@ -115,6 +155,7 @@ Record Inv (c : pcfg) (s : st) : Prop := {
               forall x, In x snap -> In x (fin s);
   i_snap : forall k tm snap f, nth_error (wa s) k = Some (A3 tm snap f) -> forall x, In x snap -> In x (acc s);
   i_mb : forall r, mailbox s = Some r -> In r (acc s);
+  i_mb2 : forall r, mailbox s = Some r -> fresh s = true \/ In r (started s) \/ pr s = P2 r \/ exists i ts, nth_error (sp s) i = Some (S3b r ts);
   i_proto2 : protocol c = true -> forall i t ts, nth_error (sp s) i = Some (S2 t ts) -> forall x, In x (acc s) -> x <> t -> In x (fin s);
   i_proto4 : protocol c = true -> forall i t r ts, nth_error (sp s) i = Some (S4 t r ts) -> In r (fin s)
 }.
